@@ -59,7 +59,7 @@ pub async fn run(
     loop {
         let entries = push_registry.entries();
         if !entries.is_empty() {
-            for (name, push_config) in entries {
+            for (name, _) in entries {
                 let subscription = match subscription_manager.get_subscription(&name) {
                     Ok(s) => s,
                     // The subscription was likely deleted and haven't been cleaned up
@@ -67,6 +67,14 @@ pub async fn run(
                     Err(GetSubscriptionError::Closed | GetSubscriptionError::DoesNotExist) => {
                         continue
                     }
+                };
+
+                // The name may have changed hands since the entries were read: the
+                // subscription that owns it now may push elsewhere, or not at all. Its
+                // own configuration is the one that counts.
+                let push_config = match subscription.push_config.clone() {
+                    Some(push_config) => push_config,
+                    None => continue,
                 };
 
                 #[cfg(deltio_verif)]
